@@ -209,4 +209,14 @@ def obligations(tier):
         for which in ("linear_in_weight", "permutation_invariant", "mean_of_halves"):
             for wkind in (("vec",) if tier == "quick" else ("scalar", "vec")):
                 obs.append(corollary(kind, 2 if tier == "quick" else 4, 2, wkind, which))
+    # frame: the terms are functions of (params, batch) only if evaluating leaves both unchanged — every function
+    # in the call cone of the three evaluate methods that lives in jinns.loss / jinns.parameters is checked by the
+    # ownership analysis of vf.frame (the C20 obligation, reported here for the functions C03 depends on)
+    from contracts import c20
+    for q in c20.cone_names():
+        if q.startswith(("jinns.parameters.", "jinns.loss._loss_utils", "jinns.loss._LossODE:LossODE.", "jinns.loss._LossPDE:LossPDEStatio.",
+                         "jinns.loss._LossPDE:LossPDENonStatio.", "jinns.loss._LossPDE:_LossPDEAbstract.", "jinns.loss._LossODE:_LossODEAbstract.")):
+            o = c20.frame_ob(q)
+            o.name = o.name.replace("C20/frame/", "C03/frame.arguments_unchanged/")
+            obs.append(o)
     return obs
